@@ -7,7 +7,10 @@
 //         a real (multi-threaded) DomainAssembler::assemble of an instrumented job; events = (kind thread arg):
 //         0 fence open, 1 fence wait returned, 2 fence close (only with hook H2), 3 scatter enter, 4 scatter leave,
 //         5 combine enter, 6 combine leave, 8 thread-label binding (label, first prepared cell), 9 master joined,
-//         10 fence wait begins (hook H2 only; statistics, ignored by the model)
+//         10 fence wait begins (hook H2 only; statistics, ignored by the model),
+//         11 fence open(false), 12 fence wait returned false (hook H2), 13 task throws (thread, cell)
+//         optional failure injection for the FIRST job: "... pseed fwhere fcell" with fwhere 1 assemble, 2 scatter,
+//         3 finish, 4 combine (of the task that assembled fcell) throws at cell fcell
 //   trace <run case> | <run output>                     -> "T nw reps {nseq seqs vec integral ncomb}*reps"
 //         (echo of the schedule-independent part of a recorded run; the Lean driver validates the events)
 //
@@ -23,6 +26,7 @@
 #include <thread>
 #include <random>
 #include <algorithm>
+#include <stdexcept>
 
 using namespace FEAT;
 using verif::Cur;
@@ -63,6 +67,17 @@ static void perturb()
   std::this_thread::sleep_for(std::chrono::microseconds(1 + (t_rng >> 8) % 60u));
 }
 
+// seeded "slow starter": about one thread in three sleeps 0.2-1 ms before its first cell, so that its neighbour
+// reaches its last layer (resp. the master its wait loop) early and really has to block on the fence
+static void slow_start()
+{
+  if(g_pseed == 0) return;
+  std::uint64_t h = (g_pseed ^ (g_pseed >> 11)) * 0xD6E8FEB86659FD93ull + std::uint64_t(my_label()) * 0x9E3779B97F4A7C15ull;
+  h ^= h >> 32;
+  if(h % 3u == 0u)
+    std::this_thread::sleep_for(std::chrono::microseconds(200 + (h >> 8) % 800u));
+}
+
 // ------------------------------------------------------------------------------------------------
 // instrumented job: cell c adds (c+1)*(k+1) to the entry of its k-th vertex (read - perturb - write, so a
 // concurrent scatter on vertex-adjacent cells loses updates), integral += 7*(c+1) via combine
@@ -75,7 +90,10 @@ public:
   std::vector<double> vec;
   double integral;
   int ncomb;
-  explicit InstrJob(const Mesh_& m) : mesh(m), vec(m.get_num_entities(0), 0.0), integral(0.0), ncomb(0) {}
+  int fail_where;
+  Index fail_cell;
+  explicit InstrJob(const Mesh_& m) : mesh(m), vec(m.get_num_entities(0), 0.0), integral(0.0), ncomb(0),
+    fail_where(0), fail_cell(0) {}
 
   class Task
   {
@@ -87,23 +105,35 @@ public:
     Index cell;
     double loc[nvc];
     double loc_int;
-    bool first;
-    explicit Task(InstrJob& j) : job(j), cell(0), loc_int(0.0), first(true) {}
+    bool first, saw_fail_cell;
+    explicit Task(InstrJob& j) : job(j), cell(0), loc_int(0.0), first(true), saw_fail_cell(false) {}
+    void maybe_fail(int where)
+    {
+      if(job.fail_where == where && (where == 4 ? saw_fail_cell : (cell == job.fail_cell)))
+      {
+        log_event(13, cell);
+        throw std::runtime_error("injected task failure");
+      }
+    }
     void prepare(Index c)
     {
       cell = c;
       log_event(first ? 8 : 7, c);
+      if(first) slow_start();
       first = false;
       perturb();
     }
     void assemble()
     {
+      if(cell == job.fail_cell) saw_fail_cell = true;
+      maybe_fail(1);
       for(int k(0); k < nvc; ++k) loc[k] = double(cell + 1u) * double(k + 1);
       loc_int += 7.0 * double(cell + 1u);
     }
     void scatter()
     {
       log_event(3, cell);
+      maybe_fail(2);
       const auto& idx = job.mesh.template get_index_set<Mesh_::shape_dim, 0>()[cell];
       for(int k(0); k < nvc; ++k)
       {
@@ -113,10 +143,11 @@ public:
       }
       log_event(4, cell);
     }
-    void finish() {}
+    void finish() { maybe_fail(3); }
     void combine()
     {
       log_event(5, 0);
+      maybe_fail(4);
       double t = job.integral;
       perturb();
       job.integral = t + loc_int;
@@ -178,13 +209,17 @@ struct Input
 #ifdef FEAT_VERIF_HOOK_H2
 static const ThreadFence* g_fence_base = nullptr;
 static std::size_t g_fence_count = 0;
-static void h2_callback(int kind, const void* obj, std::size_t)
+static void h2_callback(int kind, const void* obj, std::size_t arg)
 {
   if(kind <= 2)
   {
     const ThreadFence* f = static_cast<const ThreadFence*>(obj);
+    // open / wait carry the fence's okay flag: 0 open(true), 11 open(false), 1 wait -> true, 12 wait -> false
+    int k = kind;
+    if(kind == 0 && arg == 0u) k = 11;
+    if(kind == 1 && arg == 0u) k = 12;
     if(g_fence_base != nullptr && f >= g_fence_base && f < g_fence_base + g_fence_count)
-      log_event(kind, std::size_t(f - g_fence_base));
+      log_event(k, std::size_t(f - g_fence_base));
   }
   else
   {
@@ -247,12 +282,13 @@ struct Runner
   }
 
   template<bool ns_, bool nc_>
-  static void run_reps(DAType& da, const MeshType& mesh, Index reps, std::ostream& o)
+  static void run_rep(DAType& da, const MeshType& mesh, std::ostream& o, int fail_where, Index fail_cell)
   {
     typedef InstrJob<MeshType, ns_, nc_> JobType;
-    for(Index rep(0); rep < reps; ++rep)
     {
       JobType job(mesh);
+      job.fail_where = fail_where;
+      job.fail_cell = fail_cell;
       g_log.assign(8u * da.ei().size() + 96u * (da.get_num_worker_threads() + 2u) * (da.ce().size() + 2u) + 64u, Rec());
       g_log_pos.store(0);
       bool hooks = false;
@@ -297,7 +333,8 @@ struct Runner
     }
   }
 
-  static void run(const Input& in, bool ns, bool ncb, Index reps, std::ostream& o)
+  // ns / ncb: 0 = no, 1 = yes, 2 = alternate (even repetitions yes): jobs with and without scatter on ONE assembler
+  static void run(const Input& in, Index ns_mode, Index ncb_mode, Index reps, std::ostream& o, int fwhere, Index fcell)
   {
     std::unique_ptr<MeshType> mesh(make_mesh(in));
     TrafoType trafo(*mesh);
@@ -305,10 +342,16 @@ struct Runner
     setup(da, in);
     t_label = 0; // the master thread
     o << "R " << da.get_num_worker_threads() << " " << reps;
-    if(ns && ncb) run_reps<true, true>(da, *mesh, reps, o);
-    else if(ns) run_reps<true, false>(da, *mesh, reps, o);
-    else if(ncb) run_reps<false, true>(da, *mesh, reps, o);
-    else run_reps<false, false>(da, *mesh, reps, o);
+    for(Index rep(0); rep < reps; ++rep)
+    {
+      bool ns = (ns_mode == 2u) ? (rep % 2u == 0u) : (ns_mode != 0u);
+      bool ncb = (ncb_mode == 2u) ? (rep % 2u == 0u) : (ncb_mode != 0u);
+      int fw = (rep == 0u) ? fwhere : 0;   // only the first job fails; the following ones must be exact again
+      if(ns && ncb) run_rep<true, true>(da, *mesh, o, fw, fcell);
+      else if(ns) run_rep<true, false>(da, *mesh, o, fw, fcell);
+      else if(ncb) run_rep<false, true>(da, *mesh, o, fw, fcell);
+      else run_rep<false, false>(da, *mesh, o, fw, fcell);
+    }
   }
 };
 
@@ -323,6 +366,8 @@ static void by_shape(const Input& in, F2_ f2, F3_ f3, F4_ f4)
   else if(k == 4u) f4();
   else { std::cerr << "\n>>> FATAL ERROR: harness: unsupported cell size\n"; std::abort(); }
 }
+
+void c17_featjob(const verif::Tokens& t, std::ostream& o);
 
 static void handle(const verif::Tokens& t, std::ostream& o)
 {
@@ -339,32 +384,45 @@ static void handle(const verif::Tokens& t, std::ostream& o)
   else if(op == "run")
   {
     Input in; in.read(c);
-    bool ns = c.idx() != 0, ncb = c.idx() != 0;
+    Index ns = c.idx(), ncb = c.idx();
     Index reps = c.idx();
     g_pseed = std::uint64_t(c.idx());
+    int fwhere = 0; Index fcell = 0;
+    if(!c.done()) { fwhere = int(c.idx()); fcell = c.idx(); }
     by_shape(in,
-      [&]() { Runner<Shape::Hypercube<1>>::run(in, ns, ncb, reps, o); },
-      [&]() { Runner<Shape::Simplex<2>>::run(in, ns, ncb, reps, o); },
-      [&]() { Runner<Shape::Hypercube<2>>::run(in, ns, ncb, reps, o); });
+      [&]() { Runner<Shape::Hypercube<1>>::run(in, ns, ncb, reps, o, fwhere, fcell); },
+      [&]() { Runner<Shape::Simplex<2>>::run(in, ns, ncb, reps, o, fwhere, fcell); },
+      [&]() { Runner<Shape::Hypercube<2>>::run(in, ns, ncb, reps, o, fwhere, fcell); });
+  }
+  else if(op == "fjob")
+  {
+    c17_featjob(t, o);   // real FEAT jobs, see featjobs.cpp
   }
   else if(op == "trace")
   {
     // echo the schedule-independent part of the recorded run
     Input in; in.read(c);
     c.idx(); c.idx(); c.idx(); c.idx();
-    if(c.str() != "|") { o << "BAD-OP"; return; }
+    std::string bar = c.str();
+    bool failing = false;
+    if(bar != "|") { failing = (bar != "0"); c.idx(); bar = c.str(); }
+    if(bar != "|") { o << "BAD-OP"; return; }
     std::string r = c.str();
     if(r != "R") { o << r; return; }
     Index nw = c.idx(), reps = c.idx();
     o << "T " << nw << " " << reps;
     for(Index rep(0); rep < reps; ++rep)
     {
+      // the results of a job with an injected failure are schedule dependent: placeholder "F"
+      std::ostringstream dump;
+      std::ostream& q = (failing && rep == 0u) ? static_cast<std::ostream&>(dump) : o;
+      if(failing && rep == 0u) o << " F";
       Index nseq = c.idx();
-      o << " " << nseq;
-      for(Index s(0); s < nseq; ++s) { auto l = c.idxlist(); o << " " << l.size(); for(auto x : l) o << " " << x; }
-      auto v = c.idxlist(); o << " " << v.size(); for(auto x : v) o << " " << x;
-      o << " " << c.idx();       // integral
-      o << " " << c.idx();       // ncomb
+      q << " " << nseq;
+      for(Index s(0); s < nseq; ++s) { auto l = c.idxlist(); q << " " << l.size(); for(auto x : l) q << " " << x; }
+      auto v = c.idxlist(); q << " " << v.size(); for(auto x : v) q << " " << x;
+      q << " " << c.idx();       // integral
+      q << " " << c.idx();       // ncomb
       c.idx();                   // hooks flag
       Index nev = c.idx();
       for(Index e(0); e < 3u * nev; ++e) c.idx();
